@@ -143,28 +143,31 @@ def simulate(wd, module, cfg, num, depth, seed, timeout=600, env=None):
     return behaviours, r
 
 
-def finish_diagnosis(wd, module, cfg, traces, v, skip=(), limit=40, timeout=600):
-    """validate_traces diagnoses only the first few rejected traces of a batch.  Before a driver reports, every rejected
-    trace it is going to report (i.e. not in `skip`, the ones already explained by a named deviation) must carry a
-    failing line: diagnose up to `limit` more; the rest are marked so that they are still reported, never dropped."""
+def finish_diagnosis(wd, module, cfg, traces, v, skip=(), limit=2000, timeout=1200):
+    """validate_traces locates the failing line of only the first few rejected traces of a batch.  Before a driver reports,
+    every rejected trace it is going to report (i.e. not in `skip`, the ones already explained by a named deviation) must
+    carry a failing line: all of them are located in ONE verbose TLC run (the reporter prints every position reached, the
+    longest matched prefix is the maximum per trace); beyond `limit` they are marked so that they are still reported."""
     todo = [i for i, info in sorted(v.rejected.items()) if i not in skip and info.get('reason') == 'unexplained'
             and info.get('line') is None]
-    for n, i in enumerate(todo):
-        info = v.rejected[i]
-        if n >= limit:
-            info['line'] = 0
-            info['failing_event'] = {'op': 'undiagnosed'}
-            info['prev_event'] = None
-            continue
-        path = _write_batch(wd, traces, [i], 'single.ndjson')
-        r = check(wd, module, cfg, workers=1, timeout=timeout, env={'TRACE_FILE': path, 'VERBOSE': '1'})
+    for i in todo[limit:]:
+        v.rejected[i].update({'line': 0, 'failing_event': {'op': 'undiagnosed'}, 'prev_event': None})
+    todo = todo[:limit]
+    for b0 in range(0, len(todo), 250):
+        ids = todo[b0:b0 + 250]
+        path = _write_batch(wd, traces, ids, 'diag.ndjson')
+        r = check(wd, module, cfg, workers=4, timeout=timeout, env={'TRACE_FILE': path, 'VERBOSE': '1'})
         v.runs += 1
-        ls = [int(x) for x in re.findall(r'AT 1 (\d+)', r.out)]
-        mx = max(ls) if ls else 0
-        info['line'] = mx
-        ev = traces[i].get('ev', [])
-        info['failing_event'] = ev[mx - 1] if 0 < mx <= len(ev) else None
-        info['prev_event'] = ev[mx - 2] if 1 < mx <= len(ev) + 1 else None
+        reach = {}
+        for t, l in re.findall(r'AT (\d+) (\d+)', r.out):
+            reach[int(t)] = max(reach.get(int(t), 0), int(l))
+        for k, i in enumerate(ids, 1):
+            info = v.rejected[i]
+            mx = reach.get(k, 0)
+            info['line'] = mx
+            ev = traces[i].get('ev', [])
+            info['failing_event'] = ev[mx - 1] if 0 < mx <= len(ev) else None
+            info['prev_event'] = ev[mx - 2] if 1 < mx <= len(ev) + 1 else None
     return len(todo)
 
 
